@@ -766,10 +766,14 @@ class Interp:
         return self.ev(e.value, env, fr, ctx)
 
     def ev_ListComp(self, e, env, fr, ctx):
-        return PyList(self.comprehension(e.elt, e.generators, env, fr, ctx))
+        self._comp_unordered = False
+        l = PyList(self.comprehension(e.elt, e.generators, env, fr, ctx))
+        if self._comp_unordered and len(l.items) > 1:
+            l.unordered = True
+        return l
 
     def ev_GeneratorExp(self, e, env, fr, ctx):
-        return PyList(self.comprehension(e.elt, e.generators, env, fr, ctx))
+        return self.ev_ListComp(e, env, fr, ctx)
 
     def ev_SetComp(self, e, env, fr, ctx):
         return PySet([self.concrete_key(x, ctx) for x in self.comprehension(e.elt, e.generators, env, fr, ctx)])
@@ -782,7 +786,10 @@ class Interp:
                 out.append(self.ev(elt, env2, fr, ctx))
                 return
             g = gens[i]
-            for x in self.iterate(self.ev(g.iter, env2, fr, ctx), ctx):
+            src = self.ev(g.iter, env2, fr, ctx)
+            if isinstance(src, (PySet, set, frozenset)) or getattr(src, "unordered", False):
+                self._comp_unordered = True
+            for x in self.iterate(src, ctx):
                 env3 = dict(env2)
                 self.assign(g.target, x, env3, fr, ctx)
                 ok = True
@@ -1165,6 +1172,8 @@ class Interp:
             return self.seq_index(Seq.of(o), k, ctx)
         if isinstance(o, (PyList, tuple)):
             items = o.items if isinstance(o, PyList) else list(o)
+            if getattr(o, "unordered", False) and len(items) > 1:
+                raise Unsupported("order-dependent use of set iteration order (indexing)")
             if isz(k):
                 c = ctx.concrete_int(k)
                 if c is None:
